@@ -1,4 +1,6 @@
 import MesonModel.Cargo.Model
+import MesonModel.Cargo.CacheModel
+import MesonModel.Generated.CargoCache
 import Driver.Proto
 /- driver commands of area `cargo` (C20) -/
 namespace Driver.Cargo
@@ -66,6 +68,32 @@ def readCfgs (f : String) : Cfgs :=
     | [k, v] => (decodeStr k, decodeStr v)
     | _ => ([], []))
 
+def showApi : Except ApiErr (List Char) → String
+  | .ok a => "OK:" ++ encodeStr a
+  | .error .valueError => "ERR:ValueError"
+  | .error .mesonException => "ERR:MesonException"
+
+/-- one history on a `Dependency` object: ops `ra:<ver>` (call `accepts_version`), `rp` (read `api`),
+`u:<req>` (`update_version`); one answer per op, then the final `version` field -/
+def runHist (init : List Char) (ops : List String) : String :=
+  let blocks := MesonModel.Generated.CargoCache.updateBlocks
+  let rec go (o : Cache.Obj) (ops : List String) (acc : List String) : List String × Cache.Obj :=
+    match ops with
+    | [] => (acc.reverse, o)
+    | w :: rest =>
+      if w.startsWith "ra:" then
+        let ver := decodeStr (w.drop 3).toString
+        let r := Cache.read o "accepts_version"
+        go r.1 rest (boolStr (cargoParse r.2 ver) :: acc)
+      else if w == "rp" then
+        let r := Cache.read o "api"
+        go r.1 rest (showApi (api r.2) :: acc)
+      else if w.startsWith "u:" then
+        go (Cache.update blocks o (decodeStr (w.drop 2).toString)) rest ("-" :: acc)
+      else go o rest ("?" :: acc)
+  let (outs, o) := go (Cache.fresh init) ops []
+  ";".intercalate (outs ++ ["V:" ++ encodeStr o.version])
+
 def handle (cmd : String) (fs : List String) : String :=
   match cmd, fs with
   | "split", [r] =>
@@ -75,11 +103,9 @@ def handle (cmd : String) (fs : List String) : String :=
     let x := (SemVer.parse (decodeStr a)).v; let y := (SemVer.parse (decodeStr b)).v
     "".intercalate ([vlt x y, vgt x y, vle x y, vge x y, veq x y, vne x y].map boolStr)
   | "match", [r, v] => boolStr (cargoParse (decodeStr r) (decodeStr v))
-  | "api", [r] =>
-    match api (decodeStr r) with
-    | .ok a => "OK:" ++ encodeStr a
-    | .error .valueError => "ERR:ValueError"
-    | .error .mesonException => "ERR:MesonException"
+  | "api", [r] => showApi (api (decodeStr r))
+  | "hist", [r, ops] =>
+    runHist (decodeStr r) (if ops.trimAscii.isEmpty then [] else ops.splitOn ",")
   | "lex", [r] =>
     let l := lexer (decodeStr r)
     ",".intercalate (l.toks.map showTok ++ (if l.unterminated then ["ERR:unterminated"] else []))
